@@ -35,6 +35,9 @@ var shared = map[string][]sharedRule{
 	"C06": {
 		{[]func(*core.Ctx){C13}, []string{"C13.R5"}, "C06.R10", 2, "no caller-side wait on a mutex held across I/O (decided by C13.R5): one slow or stalled caller must not stall the others"},
 	},
+	"C04": {
+		{[]func(*core.Ctx){C05}, []string{"C05.R2", "C05.R3"}, "C04.S15", 20, "reading a header block never reads or allocates outside it (decided by C05.R2/R3): every slice bound and allocation size of the decoders is proved from the guards in machine arithmetic — a chunked reader that asks for more than the block holds, or a version byte taken from the wrong offset, is reported"},
+	},
 	"C09": {
 		{[]func(*core.Ctx){C04}, []string{"C04.S6", "C04.S4"}, "C09.R10", 14, "the header codec the context travels through is exact (decided by C04.S4/S6): every reject guard of the pair decoder rejects only blocks whose next read would not fit, and prefix/payload offsets of encoder and decoder agree — a header with an empty value, or one serialised last, is never lost or refused"},
 		{[]func(*core.Ctx){C17}, []string{"C17.R2", "C17.R3", "C17.R4", "C17.R5"}, "C09.R11", 20, "the context object itself keeps its headers apart (decided by C17.R2–R5): guarded maps, no escaping map, fresh op id per context, deep Clone — a clone or a concurrent reader must not see or change the headers of the request in flight"},
@@ -57,6 +60,8 @@ var shared = map[string][]sharedRule{
 		{[]func(*core.Ctx){C14}, []string{"C14.R1"}, "C20.R8", 7, "a worker never blocks for ever on the processor's write mutex (decided by C14.R1): held-at-call, released on every exit, never re-acquired by a callee — otherwise Serve's wg.Wait and Stop never return"},
 	},
 	"C07": {
+		{[]func(*core.Ctx){C03}, []string{"C03.R9"}, "C07.R19", 1, "each delivery runs the handler with its own arguments (decided by C03.R9): the invocation handler behind every generated subscriber callback keeps no argument or result storage across invocations, so two workers cannot hand one message's payload to the handler under another message's context"},
+		{[]func(*core.Ctx){C05}, []string{"C05.R2", "C05.R3"}, "C07.R20", 20, "a malformed message is discarded, not fatal (decided by C05.R2/R3): every index, slice and allocation size on the subscriber's decode path is proved in range in machine arithmetic"},
 		{[]func(*core.Ctx){C08}, []string{"C08.R1"}, "C07.R18", 4, "a subscriber listens where the publisher of the same operation publishes (decided by C08.R1): publisher and subscriber topic expressions of a generator are the same function of prefix, scope, delimiter and operation"},
 		{[]func(*core.Ctx){C04}, []string{"C04.S6"}, "C07.R17", 4, "a published message is not discarded for its (valid) headers (decided by C04.S6): the pair decoder rejects only blocks whose next read would not fit"},
 	},
